@@ -306,6 +306,36 @@ class StoreRun:
             else:
                 self.written_blobs.pop(ki, None)
             return None
+        if kind == "torn_link_forget":
+            # the call is memoized again and the write of its memento LINK fails after the file was opened for writing (the link
+            # is left empty); then the call is forgotten: whatever the torn entry was, nothing of it may remain or get in the way
+            from .faultfs import FaultFS
+
+            ki = op[1]
+            if self.kind != "fs" or not m.live(ki):
+                return None
+            sym, arg = self.keys[ki]
+            self.tick += 1
+            self.faulted = True
+            val = value_of(m.d[ki]["cls"] if m.d[ki]["cls"] in ("s", "D") else "s", self.tick, self.budget)
+            mem = storeh.mk_memento(sym, arg, val, self.tick)
+            mem.correlation_id = "cid_%06d" % self.tick
+            fs = FaultFS([self.root])
+            fs.match = ("open-w", ".memento.json.link", "err_write")
+            fs.install()
+            try:
+                try:
+                    be.memoize(None, mem, val)
+                except OSError:
+                    pass
+            finally:
+                fs.uninstall()
+            be.forget_call(storeh.rah(sym, arg))
+            m.forget([ki])
+            self.mem.pop(ki, None)
+            self.held.pop(ki, None)
+            self.written_blobs.pop(ki, None)
+            return None
         if kind == "memo_fault":
             # memoize with an injected ENOSPC in the middle of writing the data object; the caller
             # sees an IOError (the runner swallows it) and the dictionary is unchanged
@@ -710,6 +740,7 @@ def alphabet(profile, keys, classes, small=False):
             ops.append(("memo_fault", 0, "D"))
             ops.append(("memo_fault", k2, "s"))
             ops.append(("memo_fault", k2, "D", "meta"))  # the data object is written (or re-used), then the memento write fails
+            ops.append(("torn_link_forget", 0))
             # the same two override writes by calls whose bodies seed the process-wide PRNG before returning
             ops.append(("memo", 0, "s", OVK, "seeded"))
             ops.append(("memo", k2, "t", OVK, "seeded"))
